@@ -340,6 +340,21 @@ void run_typed(const RunCfg& c, const char* type_name) {
     any_true_returned |= call.returned_true;
   }
 
+  // a thread number identifies its worker: every call made by one worker carries the same number and no
+  // two workers share one (per-thread buffers indexed by it - as _multi does - depend on that)
+  {
+    std::map<int, uint64_t> num_of_task;
+    std::map<uint64_t, int> task_of_num;
+    for (auto& call : calls) {
+      auto it = num_of_task.find(call.task);
+      if (it == num_of_task.end()) num_of_task[call.task] = call.thread_num;
+      else if (it->second != call.thread_num) fail("callback/thread_num_not_an_identity", cfg_key, "one worker thread was given two different thread numbers (" + std::to_string(it->second) + " and " + std::to_string(call.thread_num) + ")");
+      auto jt = task_of_num.find(call.thread_num);
+      if (jt == task_of_num.end()) task_of_num[call.thread_num] = call.task;
+      else if (jt->second != call.task) fail("callback/thread_num_not_an_identity", cfg_key, "two different worker threads invoked the callback with the same thread number " + std::to_string(call.thread_num));
+    }
+  }
+
   bool expect_all = true_set.empty() || c.func == 2;
   if (expect_all) {
     for (int i = 0; i < c.len; i++) {
